@@ -1154,7 +1154,8 @@ func worker(casesPath string, from int, deadline time.Duration) {
 
 // ------------------------------------------------------------------ parent: supervises workers
 
-func supervise(casesPath string, cases []Case, deadline time.Duration) {
+func supervise(casesPath string, cases []Case, deadline time.Duration, maxBad int) {
+	bad := 0
 	byID := map[int]*Case{}
 	for i := range cases {
 		byID[cases[i].ID] = &cases[i]
@@ -1251,6 +1252,21 @@ func supervise(casesPath string, cases []Case, deadline time.Duration) {
 		}
 		from = next
 		restarts++
+		if from > 0 && cases[from-1].Obs != nil {
+			switch cases[from-1].Obs.Outcome {
+			case "crash", "hang", "leak":
+				bad++
+			}
+		}
+		if maxBad > 0 && bad >= maxBad {
+			// enough evidence; the rest is not run (each further hang costs a full deadline)
+			for i := from; i < len(cases); i++ {
+				if cases[i].Obs == nil {
+					cases[i].Obs = &Obs{Outcome: "skipped", Detail: fmt.Sprintf("not run: %d crash/hang/leak observations already", bad)}
+				}
+			}
+			break
+		}
 		if restarts > 200 {
 			fmt.Fprintf(os.Stderr, "ingestfuzz: more than 200 worker restarts, giving up at case %d\n", from)
 			break
@@ -1263,6 +1279,7 @@ func main() {
 	from := flag.Int("from", 0, "worker: index of the first case to run")
 	nbytes := flag.Int("nbytes", 0, "number of byte-level (fuzz) cases")
 	deadlineMs := flag.Int("deadline-ms", 3000, "per-request deadline")
+	maxBad := flag.Int("max-bad", 0, "stop after this many crash/hang/leak observations (0 = never)")
 	f := hx.ParseFlags()
 	deadline := time.Duration(*deadlineMs) * time.Millisecond
 	if *workerMode {
@@ -1298,7 +1315,7 @@ func main() {
 		o.Put(&cases[i])
 	}
 	o.Close()
-	supervise(tmp, cases, deadline)
+	supervise(tmp, cases, deadline, *maxBad)
 	os.Remove(tmp)
 	out := hx.OpenOut(f.Out)
 	for i := range cases {
